@@ -284,7 +284,7 @@ Section Close.
       | Panic site => mkRes s2 [] (Panic site) | Err k => mkRes s2 [] (Err k)
       | Ok s3 => phaseA s3
       end end).
-  Proof. unfold net_closed_raw, phaseA, phaseB, phaseC. Time reflexivity. Time Qed.
+  Proof. unfold net_closed_raw, phaseA, phaseB, phaseC. reflexivity. Qed.
 
   Definition closed_fields (s : state) : Prop :=
     s_ppub s = [] /\ s_pnon s = [] /\ s_pwco s = [] /\ s_hq s = [] /\ s_tmo s = [] /\ s_cur s = None.
@@ -312,5 +312,101 @@ Section Close.
     In i (fst (partition_policy cfg s q)) \/ In i (snd (partition_policy cfg s q)).
   Proof.
     intros Hi He. unfold partition_policy. cbn [fst snd]. rewrite !filter_In. destruct (op_passes cfg s i); cbn; tauto.
+  Qed.
+
+  Lemma set_dup_true_dup n o pb :
+    (0 < n)%nat -> op_packet (Nat.iter n (set_dup true) o) = Publish pb -> pub_dup pb = true.
+  Proof.
+    destruct n as [|n]; [lia|]. intros _. cbn [Nat.iter nat_rect]. set (o1 := nat_rect _ _ _ n). intros H.
+    destruct (set_dup_packet true o1) as [(pb1 & pb' & E1 & E2 & E3 & _)|[E1 E2]].
+    - rewrite E2 in H. inversion H; subst. exact E3.
+    - rewrite E2 in H. rewrite H in E1. discriminate.
+  Qed.
+
+  Lemma phaseC_s9 (s8 : state) :
+    WFS s8 -> s_hq s8 = [] ->
+    WFS (s8 <| s_ppub := [] |>
+            <| s_ops := fold_left (fun ops id => update id (set_dup true) ops) (map snd (s_ppub s8)) (s_ops s8) |>
+            <| s_rq := s_rq s8 ++ map snd (s_ppub s8) |>).
+  Proof.
+    intros HW Hhq.
+    set (c1 := mkCore (upd_all (set_dup true) (map snd (s_ppub s8)) (s_ops s8)) (s_uq s8) (s_rq s8) (s_hq s8) (s_cur s8)
+                      (s_alloc s8) (s_ppub s8) (s_pnon s8) (s_pwco s8) (s_next_id s8) (s_next_pid s8)).
+    assert (H1 : WFc [] c1).
+    { eapply WFc_upd_all; [exact HW| |reflexivity]. intros i o _. apply upd_ok_set_dup. left. reflexivity. }
+    unfold WFS, WFSx, core_of. cbn. rewrite Hhq.
+    eapply (WFc_clear_ppub [] c1); [exact H1| |reflexivity].
+    intros p i o pb Hin Hi Hpb. unfold gop, c1 in Hi. cbn in Hi, Hin.
+    destruct (lookup_upd_all (set_dup true) (map snd (s_ppub s8)) (s_ops s8) i) as (n & Hn & Hpos & _).
+    rewrite Hn in Hi. destruct (lookup i (s_ops s8)) as [o0|]; [|discriminate]. inversion Hi; subst o.
+    eapply set_dup_true_dup; [|exact Hpb]. apply Hpos. eapply In_snd; eauto.
+  Qed.
+
+  Lemma phaseC_spec (s8 : state) :
+    WFS s8 -> s_st s8 = Disconnected -> s_hq s8 = [] -> s_pwco s8 = [] -> s_tmo s8 = [] -> s_cur s8 = None ->
+    closed_res s8 (phaseC s8).
+  Proof.
+    intros HW Hst Hhq Hpw Htmo Hcur. unfold phaseC.
+    pose proof (phaseC_s9 s8 HW Hhq) as HW9.
+    set (s9 := s8 <| s_ppub := [] |>
+                  <| s_ops := fold_left (fun ops id => update id (set_dup true) ops) (map snd (s_ppub s8)) (s_ops s8) |>
+                  <| s_rq := s_rq s8 ++ map snd (s_ppub s8) |>) in *.
+    assert (P9 : pidpres s8 s9).
+    { eapply (pidpres_upd_all s8 s9 (set_dup true)); [|reflexivity]. intros o. apply set_dup_fields. }
+    assert (Hst9 : s_st s9 = Disconnected) by exact Hst.
+    assert (Hhq9 : s_hq s9 = []) by exact Hhq.
+    assert (Hpw9 : s_pwco s9 = []) by exact Hpw.
+    assert (Htmo9 : s_tmo s9 = []) by exact Htmo.
+    assert (Hcur9 : s_cur s9 = None) by exact Hcur.
+    assert (Hpp9 : s_ppub s9 = []) by reflexivity.
+    clearbody s9. clear HW Hst Hhq Hpw Htmo Hcur.
+    set (s10 := s9 <| s_pnon := [] |> <| s_uq := rev (map snd (s_pnon s9)) ++ s_uq s9 |>).
+    assert (HW10 : WFS s10).
+    { eapply WFS_queues; [exact HW9| | | | | | | | | | |]; cbn; auto; try tauto.
+      - core_cbn. cbn. intros p i o Hi Hp T. destruct T as [T|[T|[T|[T|[T|T]]]]]; try tauto.
+        + right; left. apply in_or_app. right. exact T.
+        + right; left. apply in_or_app. left. apply -> in_rev. eapply In_snd; exact T.
+      - core_cbn. cbn. intros i [Hi|Hi]; [|tauto]. apply in_app_or in Hi. destruct Hi as [Hi|Hi]; [|tauto].
+        right; left. apply in_rev in Hi. apply In_snd_inv in Hi. destruct Hi as (p & Hi).
+        destruct (w_pnon _ _ HW9 _ _ Hi) as (o & Ho & _). eapply lookup_in_keys; eauto. }
+    destruct (partition_policy cfg s10 (s_uq s10)) as [kept_u rejected_u] eqn:Epart.
+    set (X := s_uq s10).
+    set (s11 := s10 <| s_uq := [] |>).
+    assert (HW11 : WFSx X s11).
+    { eapply WFS_queues; [exact HW10| | | | | | | | | | |]; cbn; auto; try tauto.
+      - core_cbn. cbn. intros p i o Hi Hp T. unfold X. tauto.
+      - core_cbn. cbn. intros i. tauto. }
+    assert (Hst11 : s_st s11 = Disconnected) by exact Hst9.
+    pose proof (fail_all_spec cfg X rejected_u s11 EOfflineQueuePolicyFailed HW11 (W9_disc s11 Hst11)) as F.
+    set (r := fail_all cfg s11 rejected_u EOfflineQueuePolicyFailed) in *.
+    destruct (rest_fields _ _ (fc_rest _ _ _ (fs_frame _ _ _ _ _ F))) as (R1 & R2 & R3 & R4 & R5 & R6 & _ & _ & R9 & R10 & _).
+    pose proof (fs_nopanic _ _ _ _ _ F) as N1.
+    assert (Hpp : s_ppub (r_s r) = []) by (eapply subset_nil; [apply (fc_ppub _ _ _ (fs_frame _ _ _ _ _ F))|exact Hpp9]).
+    assert (Hpn : s_pnon (r_s r) = []) by (eapply subset_nil; [apply (fc_pnon _ _ _ (fs_frame _ _ _ _ _ F))|reflexivity]).
+    constructor; rewrite ?andthen_s, ?andthen_out by (try assumption; intros site; discriminate); cbn [pure r_s r_out r_done].
+    - cbn [fold_result]. eapply fail_spec_out; eauto.
+    - (* WFS of the final state *)
+      assert (HWX : WFSx X (r_s r <| s_uq := s_uq (r_s r) ++ kept_u |>)).
+      { eapply WFS_queues; [apply F| | | | | | | | | | |]; cbn; auto; try tauto.
+        - core_cbn. cbn. intros p i o Hi Hp T. rewrite R1 in T |- *. cbn in T |- *. tauto.
+        - core_cbn. cbn. rewrite R1. cbn. intros i [Hi|Hi]; [|tauto]. right; right. rewrite R9.
+          assert (Hk : In i (fst (partition_policy cfg s10 (s_uq s10)))) by (rewrite Epart; exact Hi).
+          apply partition_kept in Hk. apply (w_qlt _ _ HW10). core_cbn. tauto. }
+      apply (WFc_unexempt X _ HWX).
+      + intros i o p HiX Hi Hp. unfold gop in Hi. cbn in Hi.
+        pose proof (fc_sub _ _ _ (fs_frame _ _ _ _ _ F) _ _ Hi) as Hi11.
+        assert (He : op_exists s10 i = true) by (unfold op_exists; unfold getop in Hi11; cbn in Hi11 |- *; rewrite Hi11; reflexivity).
+        destruct (partition_cases s10 (s_uq s10) i HiX He) as [Hk|Hk]; rewrite Epart in Hk; cbn [fst snd] in Hk.
+        * core_cbn. cbn. right; left. apply in_or_app. tauto.
+        * pose proof (fs_gone _ _ _ _ _ F _ Hk) as Hg. unfold getop in Hg. congruence.
+      + intros i o HiX Hi Hpr. unfold gop in Hi. cbn in Hi.
+        pose proof (fc_sub _ _ _ (fs_frame _ _ _ _ _ F) _ _ Hi) as Hi11.
+        destruct (w_pubrel _ _ HW10 i o Hi11 Hpr) as (pb & Hpb & Hd). exists pb. split; [exact Hpb|].
+        destruct Hd as [Hd|[Hd|Hd]]; [destruct Hd|left; exact Hd|].
+        destruct Hd as (p & Hd). cbn in Hd. rewrite Hpp9 in Hd. destruct Hd.
+    - cbn. eapply disc_frame; [apply (fs_frame _ _ _ _ _ F)|exact Hst11].
+    - unfold closed_fields. cbn. rewrite R5, R3, R6, R4. cbn. tauto.
+    - eapply pidpres_trans; [exact P9|]. intros i o Hi. cbn in Hi.
+      apply (fc_sub _ _ _ (fs_frame _ _ _ _ _ F)) in Hi. eauto.
   Qed.
 End Close.
